@@ -489,3 +489,54 @@ def _is_boolean_reduction(call):
             isinstance(v.func.value, ast.Compare):
         return True
     return False
+
+
+def rule_loop_rebind(repo, col):
+    """EF-RETNEW: in the operations documented to return a new table, a
+    result name that starts out as the receiver and is rebound to a factory
+    result inside a loop is rebound on every iteration."""
+    from .rules_effects import NEW_TABLE_OPS
+    rule = 'EF-RETNEW'
+    n_sites = 0
+    for m in NEW_TABLE_OPS:
+        q = 'Table.' + m
+        if not repo.has_func(TABLE, q):
+            continue
+        fn = repo.func(TABLE, q)
+        ret_names = {r.value.id for r in body_walk(fn)
+                     if isinstance(r, ast.Return) and
+                     isinstance(r.value, ast.Name)}
+        assigns = local_assignments(fn)
+        for r in sorted(ret_names):
+            vals = assigns.get(r, [])
+            if not any(isinstance(v, ast.Name) and v.id == 'self'
+                       for v, _ in vals):
+                continue
+            for loop in [n for n in body_walk(fn) if isinstance(n, ast.For)]:
+                rebinds = [st for st in ast.walk(loop)
+                           if isinstance(st, ast.Assign) and any(
+                               isinstance(t, ast.Name) and t.id == r
+                               for t in st.targets)]
+                if not rebinds:
+                    continue
+                n_sites += 1
+                direct = [st for st in loop.body if st in rebinds]
+                early = []
+                if direct:
+                    idx = loop.body.index(direct[0])
+                    for st in loop.body[:idx]:
+                        early += [x for x in ast.walk(st) if isinstance(
+                            x, (ast.Continue, ast.Break))]
+                ok = bool(direct) and not early
+                col.check(ok, rule, TABLE, q, 'rebind:%s' % r,
+                          early[0] if early else rebinds[0],
+                          'every iteration rebinds the result to a new '
+                          'table', 'an iteration can skip the rebinding of '
+                          '`%s`, which starts out as the receiver: the '
+                          'operation then returns the receiver itself '
+                          'instead of a new table' % r)
+    col.ok(rule, TABLE, '<new-table ops>', 'scan', None,
+           '%d loop-rebound results examined' % n_sites)
+
+
+RULE_TEXT['EF-RETNEW'] = ' '.join(rule_loop_rebind.__doc__.split())
